@@ -23,9 +23,12 @@ PLAIN_POOLS = [
      "nu", "xi", "omicron", "pi", "rho", "sigma", "tau", "upsilon"],
     ["", "a", "bb", "ccc"],
     ["hello world", "foo bar", "lorem ipsum dolor", "q"],
+    ["ok", "OK", "Ok", "kb", "kB", "Kb", "KB"],
 ]
 HOSTILE_PLAIN = ['say "hi"', "it's", "back\\slash", "new\nline", "tab\there", "a,b", "a, b]", "ünï", "日本", "naïve café",
-                 "q r", "semi;colon", "{brace}", "per%cent", "'''", '"""', "\\n", "\\", '"', "ключ", "😀 ok", "x😀"]
+                 "q r", "semi;colon", "{brace}", "per%cent", "'''", '"""', "\\n", "\\", '"', "ключ", "😀 ok", "x😀",
+                 # not in Unicode normal form C / compatibility characters; unpaired surrogates (valid JSON: "\\ud83d")
+                 "Ame\u0301lie", "\u212b", "\u2126", "e\u0301" * 10, "\u1100\u1161", "\ud83d", "x\udc00y"]
 LONG_PLAIN = ["eighteen chars long", "nineteen chars long!", "exactly twenty chars!", "twenty-one characters",
               "a" * 18, "b" * 19, "c" * 20, "d" * 21, "this is a much longer free text value"]
 INT_STR = ["1", "0", "-7", "42", " 12 ", "1_000", "+5", "٣", "007", "123456789012345678901234567890"]
@@ -33,10 +36,12 @@ FLOAT_STR = ["2.5", "1e5", "nan", "inf", ".5", "-0.0", "1.", "-Infinity", "1E-3"
 BOOL_STR = ["true", "false", "True", "FALSE", "tRuE"]
 # near-misses of the pseudo-type parsers (plain strings today): whitespace-padded booleans, words the date parsers might take
 NEAR_MISS_STR = [" true", "false ", "\tTrue", "FALSE\n", "yes", "no", "on", "off", "0x10", "1,5", "1e", "--1", "½", "nan%", "truee", "t", "f",
-                 "24:00:00", "2018-13-01", "12-31-1999", "10:30:60", "T10:30", "2018-01-02T", "1.2.3", "1__0", "_1", "1_", "∞", "+-1"]
-DATE_STR = ["2018-01-02", "1999-12-31", "2020-02-29"]
+                 "24:00:00", "2018-13-01", "12-31-1999", "10:30:60", "T10:30", "2018-01-02T", "1.2.3", "1__0", "_1", "1_", "∞", "+-1",
+                 "3,14", "-0,5", "12:" + "4815162342" * 4, "1e400", "0b101", "1d", "1f", "0x1p3"]
+DATE_STR = ["2018-01-02", "1999-12-31", "2020-02-29", "0001-01-01", "0999-12-31"]
 TIME_STR = ["10:30:00", "23:59:59", "07:05", "12:00:00.123", "10:00 EST", "12:30 PST"]
-DATETIME_STR = ["2018-01-02T10:30:00", "2018-01-02T10:30:00Z", "2018-01-02T10:30:00+03:00", "1999-12-31T23:59:59.999"]
+DATETIME_STR = ["2018-01-02T10:30:00", "2018-01-02T10:30:00Z", "2018-01-02T10:30:00+03:00", "1999-12-31T23:59:59.999",
+                "0999-12-31T23:59:59", "0001-01-01T00:00:00"]
 
 SCALAR_KINDS = ["int", "float", "bool", "null", "plain", "hostile", "long", "many", "intstr", "floatstr", "boolstr",
                 "date", "time", "datetime", "bigint", "intfloat", "boolnear", "nearmiss"]
@@ -380,13 +385,21 @@ KEY_STYLES = {
                "dataclass", "optional", "ClassType", "convert_strings", "IntString", "FloatString", "BooleanString",
                "IsoDateString", "datetime", "date", "time", "dataclasses", "typing", "pydantic", "sqlmodel"],
     "reserved": ["copy", "json", "fields", "schema", "validate", "construct", "self", "cls", "Config", "parse_obj", "dict_",
-                 "update_forward_refs", "from_orm", "parse_raw", "schema_json"],
+                 "update_forward_refs", "from_orm", "parse_raw", "schema_json",
+                 # spellings that become a reserved name only after conversion
+                 "Json", "JSON", "Copy", "parseObj", "schemaJson", "json!", "jsön", "Validate", "fromOrm"],
+    "long": ["survey_question_about_the_overall_satisfaction_with_the_product_quality_and_price_part_one",
+             "survey_question_about_the_overall_satisfaction_with_the_product_quality_and_price_part_two",
+             "a_rather_long_dotted.path.to.some.deeply.nested.configuration.value.number.one",
+             "a_rather_long_dotted.path.to.some.deeply.nested.configuration.value.number.two", "x" * 80, "x" * 79 + "y"],
     "punct": ['a"b', "a'b", "a\\b", "a b", "a.b", "$ref", "@type", "#text", "a/b", "a:b", "a+b", "a[0]", "a{b}", "a\tb", "a\nb",
               'x"""y', "x'''y", "a\\", "a\\\\b", "a%sb", "a{{b}}", "a{%b%}",
               "first\u2028second", "para\u2029graph", "next\u0085line", "form\x0cfeed", "vt\x0bab", "fs\x1csep", "cr\rlf"],
     "nonascii": ["données", "Ünï", "ключ", "Ключ", "λέξη", "straße", "naïve", "Բառ", "ßeta", "émigré", "ñandú", "ÇA", "œuvre",
                  "ключ_поля", "dataЖ", "Жdata", "x名前", "café_au_lait",
-                 "cafe\u0301", "prix-cafe\u0301", "A\u030angstrom", "\u212aelvin", "\u2126hm", "nai\u0308ve", "e\u0301te\u0301"],
+                 "cafe\u0301", "prix-cafe\u0301", "A\u030angstrom", "\u212aelvin", "\u2126hm", "nai\u0308ve", "e\u0301te\u0301",
+                 # supplementary-plane characters that are not printable: tag characters, plane-15 private use, format controls
+                 "tag\U000e0067x", "pua\U000f0000", "fmt\U0001d173z", "flag\U0001f3f4\U000e0067\U000e007f", "emoji😀key"],
     "plural": ["items", "item", "children", "child", "data", "datum", "status", "statuses", "address", "addresses", "series",
                "news", "person", "people", "men", "man", "indices", "index", "boxes", "box"],
 }
